@@ -114,78 +114,100 @@ def result_core(res):
 
 def rule_t1(F):
     r = RuleResult("C01.T1", "operator selection chain (BinOp x kind) -> lir instruction / IntCmp / FloatCmp -> cranelift op / condition code", floor=13 * 2 + 6 + 10 + 6 + 9 + 9)
-    # --- binop_to_int_cmp
-    b = find_body(F, "lir::lower::binop_to_int_cmp", r)
+    # --- binop_to_int_cmp / binop_to_float_cmp / codegen int_cmp / float_cmp: every row is obtained by EVALUATING the function on the
+    # enum values (vf/symex, helpers followed), so the way the table is written (guards, tuple match, if-chains, helper) does not matter
+    from .. import symex
+
+    def by_type(b, vals):
+        out = {}
+        for i, p_ in enumerate(b.hir.get("params") or []):
+            ty = str(p_.get("ty") or "")
+            for frag, v in vals.items():
+                if frag in ty:
+                    out[i] = v
+        return out
+
+    def some_payload(res):
+        if isinstance(res, tuple) and res and res[0] == "ctor" and res[1] == "Some" and len(res) == 3:
+            return res[2]
+        return None
+
+    b = find_body(F, "lir::lower::binop_to_int_cmp", r) or None
+    if b is None:
+        cands = [x for x in F.all_bodies() if x.hir and x.path.startswith("lir::lower") and "{closure" not in x.path and any("BinOp" in str(p_.get("ty") or "") for p_ in x.hir.get("params") or [])
+                 and any("IntKind" in str(p_.get("ty") or "") for p_ in x.hir.get("params") or [])]
+        b = cands[0] if cands else None
+        if b is not None:
+            r.anchor_missing = [m for m in r.anchor_missing if "binop_to_int_cmp" not in m]
     if b:
-        h = b.hir["value"]
-        ld = hir.LocalDefs(b.hir)
-        ms = hir.find_match_on(h, "BinOp::")
-        if not ms:
-            r.missing("match over ast::BinOp in binop_to_int_cmp")
-        else:
-            rows = hir.table(ms[0])
-            for op in OPS:
-                for signed in (True, False):
-                    row, prob = eval_table(ld, rows, "BinOp::" + op, {"signed": signed})
-                    got = result_core(row["result"]) if row else None
-                    want = int_cmp_spec(op, signed)
-                    key = "int_cmp %s %s" % (op, "signed" if signed else "unsigned")
-                    r.inst(key, {"table": "binop_to_int_cmp", "op": op, "signed": signed, "result": got})
-                    if prob:
-                        r.bad(b.path, key, relfile(b.file), b.line, prob)
-                    elif got != want:
-                        r.bad(b.path, key, relfile(b.file), row["line"] if row else b.line,
-                              "%s on %s integers selects %s, language semantics require %s" % (op, "signed" if signed else "unsigned", got, want))
-    # --- binop_to_float_cmp
+        for op in OPS:
+            for signed in (True, False):
+                key = "int_cmp %s %s" % (op, "signed" if signed else "unsigned")
+                want = int_cmp_spec(op, signed)
+                try:
+                    res, _ = symex.run_function(b.hir, by_type(b, {"BinOp": op, "IntKind": "Signed" if signed else "Unsigned"}), F=F)
+                    pay = some_payload(res)
+                    got = ("IntCmp::" + pay) if isinstance(pay, str) else None
+                    prob = None if (pay is not None or res == "None") else "result %r not understood" % (res,)
+                except symex.Unknown as e:
+                    got, prob = None, "cannot evaluate %s on (%s, %s): %s" % (hir.last(b.path), op, signed, e)
+                r.inst(key, {"table": hir.last(b.path), "op": op, "signed": signed, "result": got})
+                if prob:
+                    r.bad(b.path, key, relfile(b.file), b.line, prob)
+                elif got != want:
+                    r.bad(b.path, key, relfile(b.file), b.line,
+                          "%s on %s integers selects %s, language semantics require %s" % (op, "signed" if signed else "unsigned", got, want))
     b = find_body(F, "lir::lower::binop_to_float_cmp", r)
     if b:
-        ld = hir.LocalDefs(b.hir)
-        ms = hir.find_match_on(b.hir["value"], "BinOp::")
-        if not ms:
-            r.missing("match over ast::BinOp in binop_to_float_cmp")
-        else:
-            rows = hir.table(ms[0])
-            for op in OPS:
-                row, prob = eval_table(ld, rows, "BinOp::" + op, {"signed": True})
-                got = result_core(row["result"]) if row else None
-                want = "FloatCmp::" + op if op in FLOATCC else None
-                key = "float_cmp %s" % op
-                r.inst(key, {"table": "binop_to_float_cmp", "op": op, "result": got})
-                if got != want:
-                    r.bad(b.path, key, relfile(b.file), row["line"] if row else b.line, "%s on floats selects %s, expected %s" % (op, got, want))
+        for op in OPS:
+            key = "float_cmp %s" % op
+            want = "FloatCmp::" + op if op in FLOATCC else None
+            try:
+                res, _ = symex.run_function(b.hir, by_type(b, {"BinOp": op}), F=F)
+                pay = some_payload(res)
+                got = ("FloatCmp::" + pay) if isinstance(pay, str) else None
+                prob = None if (pay is not None or res == "None") else "result %r not understood" % (res,)
+            except symex.Unknown as e:
+                got, prob = None, "cannot evaluate %s on %s: %s" % (hir.last(b.path), op, e)
+            r.inst(key, {"table": hir.last(b.path), "op": op, "result": got})
+            if prob:
+                r.bad(b.path, key, relfile(b.file), b.line, prob)
+            elif got != want:
+                r.bad(b.path, key, relfile(b.file), b.line, "%s on floats selects %s, expected %s" % (op, got, want))
     # --- codegen int_cmp / float_cmp
-    for fn, enum, spec, cc in (("::int_cmp", "IntCmp::", INTCC, "IntCC::"), ("::float_cmp", "FloatCmp::", FLOATCC, "FloatCC::")):
+    for fn, enum, spec, cc, want_m in (("::int_cmp", "IntCmp", INTCC, "IntCC::", "icmp"), ("::float_cmp", "FloatCmp", FLOATCC, "FloatCC::", "fcmp")):
         b = find_body(F, fn, r, contains="codegen::")
         if not b:
             continue
-        ms = hir.find_match_on(b.hir["value"], enum)
-        if not ms:
-            r.missing("match over %s in codegen%s" % (enum, fn))
-            continue
-        rows = hir.table(ms[0])
+        pn = [p_.get("name") for p_ in b.hir["params"]]
+        valued = [i for i, p_ in enumerate(b.hir["params"]) if "ir::Value" in str(p_.get("ty") or "") or "entities::Value" in str(p_.get("ty") or "")]
         seen_cc = {}
         for v, want in spec.items():
-            row, _ = eval_table(None, rows, enum + v, {})
-            got = row["result"] if row else None
-            key = "%s%s" % (enum, v)
-            r.inst(key, {"table": "codegen" + fn, "variant": v, "condition_code": got})
+            key = "%s::%s" % (enum, v)
+            got = None
+            order_ok = None
+            try:
+                res, events = symex.run_function(b.hir, by_type(b, {enum: v}), F=F)
+                ev = [e for e in events if e[0] == "mcall" and e[1] == want_m]
+                if len(ev) == 1 and len(ev[0][3]) == 3:
+                    got = cc + str(ev[0][3][0]) if isinstance(ev[0][3][0], str) else None
+                    if len(valued) == 2:
+                        order_ok = (str(ev[0][3][1]) == pn[valued[0]] and str(ev[0][3][2]) == pn[valued[1]])
+                prob = None if got else "no single %s(cc, left, right) reached for %s" % (want_m, v)
+            except symex.Unknown as e:
+                prob = "cannot evaluate %s on %s: %s" % (hir.last(b.path), v, e)
+            r.inst(key, {"table": "codegen" + fn, "variant": v, "condition_code": got, "operands_in_order": order_ok})
+            if prob:
+                r.bad(b.path, key, relfile(b.file), b.line, prob)
+                continue
             if got != cc + want:
-                r.bad(b.path, key, relfile(b.file), row["line"] if row else b.line, "%s%s is translated to %s, expected %s%s" % (enum, v, got, cc, want))
+                r.bad(b.path, key, relfile(b.file), b.line, "%s::%s is translated to %s, expected %s%s" % (enum, v, got, cc, want))
             if got in seen_cc:
-                r.bad(b.path, key, relfile(b.file), row["line"] if row else b.line, "condition code %s is used for both %s and %s (not injective)" % (got, seen_cc[got], v))
+                r.bad(b.path, key, relfile(b.file), b.line, "condition code %s is used for both %s and %s (not injective)" % (got, seen_cc[got], v))
             seen_cc[got] = v
-        # the comparison itself: icmp(cc, left, right) / fcmp
-        ld = hir.LocalDefs(b.hir)
-        want_m = "icmp" if "int" in fn else "fcmp"
-        cm = [c for c in hir.nodes(b.hir["value"], "mcall") if c["m"] == want_m]
-        if len(cm) != 1:
-            r.bad(b.path, want_m, relfile(b.file), b.line, "expected exactly one %s call" % want_m)
-        else:
-            pn = [p.get("name") for p in b.hir["params"]]
-            a = [roots(ld, x) - {"self"} for x in cm[0]["args"]]
-            r.inst("%s operand order" % want_m, {"args": [sorted(x) for x in a]})
-            if len(a) != 3 or a[1] != {pn[1]} or a[2] != {pn[2]}:
-                r.bad(b.path, want_m + " operand order", relfile(b.file), cm[0]["line"], "%s(cc, %s) does not pass (left, right) in order" % (want_m, [sorted(x) for x in a[1:]]))
+            if order_ok is False:
+                r.bad(b.path, want_m + " operand order", relfile(b.file), b.line, "%s(cc, ..) does not pass (left, right) in order for %s" % (want_m, v))
+        r.inst("%s operand order" % want_m, {"checked_per_row": True})
     # --- lir::lower binop arithmetic sections
     b = find_body(F, "::binop", r, contains="lir::lower")
     if b:
@@ -317,88 +339,104 @@ ALL_ARITH = {"iadd", "fadd", "isub", "fsub", "imul", "fmul", "sdiv", "udiv", "fd
 
 def rule_t2(F):
     r = RuleResult("C01.T2", "operand order: left/right of every arithmetic and comparison row stay left/right down to the cranelift builder call", floor=11 + 8)
-    # codegen arms
+    # codegen arms: FuncGen::instruction is EVALUATED on each instruction (vf/sx: all paths, helpers followed); what is read off is
+    # which cranelift builder methods it reaches and with which operands - however the arm is written
+    from .. import sx
     b = find_body(F, "::instruction", r, contains="codegen::")
     if b:
-        ld = hir.LocalDefs(b.hir)
-        ms = hir.find_match_on(b.hir["value"], "Instruction::", min_arms=10)
-        if not ms:
-            r.missing("match over lir::Instruction in codegen::instruction")
+        ipos = [i for i, p_ in enumerate(b.hir.get("params") or []) if "Instruction" in str(p_.get("ty") or "")]
+        if not ipos:
+            r.missing("the lir::Instruction parameter of codegen::instruction")
         else:
-            rows = hir.table(ms[0])
-            for name, (iops, fops) in BUILDER_OPS.items():
-                row, _ = eval_table(None, rows, None, {}) if False else (None, None)
-                for rw in rows:
-                    if any(a.startswith(name + "{") or a == name for a in rw["alts"]):
-                        row = rw
-                if row is None:
-                    r.bad(b.path, name, relfile(b.file), b.line, "no arm for %s" % name)
+            ex = sx.Exec(F)
+
+            def run(name, **fields):
+                val = ("ctor", name, ("to", sx.Sym("to")), ("left", sx.Sym("left")), ("right", sx.Sym("right")), ("val", sx.Sym("val")), ("from", sx.Sym("from"))) + tuple(fields.items())
+                return ex.paths(b.hir, {ipos[0]: val})
+
+            def builder_calls(paths, names):
+                out = []
+                for _, evs in paths:
+                    for e in evs:
+                        if e[0] == "mcall" and e[1] in names:
+                            out.append(e)
+                return out
+
+            def order_ok(e, first=0):
+                a = e[3]
+                return len(a) >= first + 2 and sx.mentions(a[first], "left") and not sx.mentions(a[first], "right") and sx.mentions(a[first + 1], "right") and not sx.mentions(a[first + 1], "left")
+
+            cases = [("Add", {}, {"iadd", "fadd"}), ("Sub", {}, {"isub", "fsub"}), ("Mul", {}, {"imul", "fmul"}), ("FDiv", {}, {"fdiv"}),
+                     ("Div", {"signed": True}, {"sdiv"}), ("Div", {"signed": False}, {"udiv"}), ("Mod", {"signed": True}, {"srem"}), ("Mod", {"signed": False}, {"urem"})]
+            for name, fields, want in cases:
+                key = "Instruction::%s%s" % (name, "" if not fields else " signed=%s" % fields["signed"])
+                try:
+                    ps = run(name, **fields)
+                except (sx.TooManyPaths, sx.Unknown) as e_:
+                    r.bad(b.path, key, relfile(b.file), b.line, "cannot evaluate codegen::instruction on %s: %s" % (key, e_))
                     continue
-                calls = [c for c in hir.nodes(row["body"], "mcall") if c["m"] in ALL_ARITH]
-                got = {c["m"] for c in calls}
-                r.inst("codegen %s" % name, {"instruction": name, "builder_ops": sorted(got)})
-                if got != (iops | fops):
-                    r.bad(b.path, name, relfile(b.file), row["line"], "%s emits %s, expected %s" % (name, sorted(got), sorted(iops | fops)))
-                for c in calls:
-                    a = [field_roots(ld, x) - {"self"} for x in c["args"]]
-                    if len(a) != 2 or a[0] != {"left"} or a[1] != {"right"}:
-                        r.bad(b.path, "%s %s operand order" % (name, c["m"]), relfile(b.file), c["line"],
-                              "%s(%s) does not pass (left, right) in order" % (c["m"], ", ".join(str(sorted(x)) for x in a)))
-                # float op only under the F32|F64 test; signed op under `true`
-                for iff in hir.nodes(row["body"], "if"):
-                    c = iff["cond"]
-                    if c.get("k") == "let":
-                        pd = hir.pat_desc(c["pat"])
-                        then_ops = {x["m"] for x in hir.nodes(iff["then"], "mcall") if x["m"] in ALL_ARITH}
-                        else_ops = {x["m"] for x in hir.nodes(iff.get("else") or {}, "mcall") if x["m"] in ALL_ARITH}
-                        isf = "F32" in pd and "F64" in pd
-                        r.inst("codegen %s float/int split" % name)
-                        if isf and (then_ops != fops or else_ops != iops):
-                            r.bad(b.path, name + " float/int split", relfile(b.file), iff["line"], "float test selects %s, integer path %s" % (sorted(then_ops), sorted(else_ops)))
-                        if not isf:
-                            r.bad(b.path, name + " float/int split", relfile(b.file), iff["line"], "float/int selection does not test F32 | F64 (pattern %s)" % pd)
-                for m in hir.nodes(row["body"], "match"):
-                    t = hir.table(m)
-                    if any("lit:True" in a for rw2 in t for a in rw2["alts"]):
-                        for rw2 in t:
-                            ops = {x["m"] for x in hir.nodes(rw2["body"], "mcall") if x["m"] in ALL_ARITH}
-                            want = {"lit:True": {"sdiv", "srem"}, "lit:False": {"udiv", "urem"}}.get(rw2["alts"][0])
-                            r.inst("codegen %s signed=%s" % (name, rw2["alts"][0]))
-                            sroots = field_roots(ld, m["e"])
-                            if sroots - {"self"} != {"signed"}:
-                                r.bad(b.path, name + " signed", relfile(b.file), m["line"], "signedness match is not on the instruction's `signed` field")
-                            if want is not None and not ops <= want:
-                                r.bad(b.path, name + " signed", relfile(b.file), rw2["line"], "signed=%s selects %s" % (rw2["alts"][0], sorted(ops)))
-            # IntCmp / FloatCmp arms: int_cmp(l, r, cmp)
-            for name, fn in (("Instruction::IntCmp", "int_cmp"), ("Instruction::FloatCmp", "float_cmp")):
+                evs = builder_calls(ps, ALL_ARITH)
+                got = {e[1] for e in evs}
+                r.inst("codegen %s" % key, {"instruction": key, "builder_ops": sorted(got), "paths": len(ps)})
+                if got != want:
+                    r.bad(b.path, key, relfile(b.file), b.line, "%s emits %s, expected %s" % (key, sorted(got), sorted(want)))
+                for e in evs:
+                    if not order_ok(e):
+                        r.bad(b.path, "Instruction::%s %s operand order" % (name, e[1]), relfile(b.file), b.line,
+                              "%s(%s) does not pass (left, right) in order" % (e[1], ", ".join(sx.short(x, 40) for x in e[3])))
+            # the float / integer split of Add, Sub, Mul is made on the operand type: an `if let` on F32 | F64 where the arm is found inline
+            ms = hir.find_match_on(b.hir["value"], "Instruction::", min_arms=10)
+            rows = hir.table(ms[0]) if ms else []
+            for name, (iops, fops) in BUILDER_OPS.items():
+                if not (iops and fops):
+                    continue
                 for rw in rows:
-                    if any(a.startswith(name + "{") for a in rw["alts"]):
-                        cs = [c for c in hir.nodes(rw["body"], "mcall") if c["m"] == fn]
-                        r.inst("codegen %s" % name)
-                        if len(cs) != 1:
-                            r.bad(b.path, name, relfile(b.file), rw["line"], "%s arm does not call %s exactly once" % (name, fn))
-                            continue
-                        a = [field_roots(ld, x) - {"self"} for x in cs[0]["args"]]
-                        if a != [{"left"}, {"right"}, {"cmp"}]:
-                            r.bad(b.path, name + " operand order", relfile(b.file), cs[0]["line"], "%s(%s): expected (left, right, cmp)" % (fn, a))
+                    if not any(a.startswith(name + "{") or a == name for a in rw["alts"]):
+                        continue
+                    for iff in hir.nodes(rw["body"], "if"):
+                        c = iff["cond"]
+                        if c.get("k") == "let":
+                            pd = hir.pat_desc(c["pat"])
+                            then_ops = {x["m"] for x in hir.nodes(iff["then"], "mcall") if x["m"] in ALL_ARITH}
+                            else_ops = {x["m"] for x in hir.nodes(iff.get("else") or {}, "mcall") if x["m"] in ALL_ARITH}
+                            if not then_ops and not else_ops:
+                                continue
+                            isf = "F32" in pd and "F64" in pd
+                            r.inst("codegen %s float/int split" % name)
+                            if isf and (then_ops != fops or else_ops != iops):
+                                r.bad(b.path, name + " float/int split", relfile(b.file), iff["line"], "float test selects %s, integer path %s" % (sorted(then_ops), sorted(else_ops)))
+                            if not isf:
+                                r.bad(b.path, name + " float/int split", relfile(b.file), iff["line"], "float/int selection does not test F32 | F64 (pattern %s)" % pd)
+            # IntCmp / FloatCmp: the comparison reaches icmp / fcmp with (cc, left, right)
+            for name, m_, cmpv in (("IntCmp", "icmp", "SLt"), ("FloatCmp", "fcmp", "Lt")):
+                key = "Instruction::%s" % name
+                try:
+                    ps = run(name, cmp=cmpv)
+                except (sx.TooManyPaths, sx.Unknown) as e_:
+                    r.bad(b.path, key, relfile(b.file), b.line, "cannot evaluate codegen::instruction on %s: %s" % (key, e_))
+                    continue
+                evs = builder_calls(ps, {m_})
+                r.inst("codegen %s" % key, {"calls": len(evs)})
+                if not evs:
+                    r.bad(b.path, key, relfile(b.file), b.line, "%s does not reach %s" % (key, m_))
+                for e in evs:
+                    if not order_ok(e, first=1):
+                        r.bad(b.path, key + " operand order", relfile(b.file), b.line, "%s(%s): expected (cc, left, right)" % (m_, ", ".join(sx.short(x, 40) for x in e[3])))
             # Not / Negate
-            for rw in rows:
-                if any(a.startswith("Instruction::Not{") for a in rw["alts"]):
-                    cs = [c for c in hir.nodes(rw["body"], "mcall") if c["m"] in ("icmp_imm", "bnot", "bxor_imm", "icmp")]
-                    r.inst("codegen Instruction::Not")
-                    ok = False
-                    for c in cs:
-                        if c["m"] == "icmp_imm":
-                            cc = hir.result_desc(c["args"][0])
-                            imm = [n.get("v") for n in hir.walk(c["args"][2]) if n.get("k") == "lit"]
-                            ok = bool(cc and cc.endswith("IntCC::Equal") and imm == [0] and field_roots(ld, c["args"][1]) - {"self"} == {"val"})
-                    if not ok:
-                        r.bad(b.path, "Instruction::Not", relfile(b.file), rw["line"], "boolean not is expected to be icmp_imm(Equal, val, 0)")
-                if any(a.startswith("Instruction::Negate{") for a in rw["alts"]):
-                    ops = {c["m"] for c in hir.nodes(rw["body"], "mcall") if c["m"] in ALL_ARITH}
-                    r.inst("codegen Instruction::Negate")
-                    if ops != {"ineg", "fneg"}:
-                        r.bad(b.path, "Instruction::Negate", relfile(b.file), rw["line"], "negation emits %s, expected ineg/fneg" % sorted(ops))
+            try:
+                ps = run("Not")
+                evs = builder_calls(ps, {"icmp_imm", "bnot", "bxor_imm", "icmp"})
+                r.inst("codegen Instruction::Not")
+                ok = bool(evs) and all(e[1] == "icmp_imm" and len(e[3]) == 3 and e[3][0] == "Equal" and e[3][2] == 0 and (sx.mentions(e[3][1], "val") or sx.mentions(e[3][1], "from")) for e in evs)
+                if not ok:
+                    r.bad(b.path, "Instruction::Not", relfile(b.file), b.line, "boolean not is expected to be icmp_imm(Equal, val, 0); found %s" % [(e[1],) + tuple(sx.short(x, 24) for x in e[3]) for e in evs][:3])
+                ps = run("Negate")
+                got = {e[1] for e in builder_calls(ps, ALL_ARITH)}
+                r.inst("codegen Instruction::Negate")
+                if got != {"ineg", "fneg"}:
+                    r.bad(b.path, "Instruction::Negate", relfile(b.file), b.line, "negation emits %s, expected ineg/fneg" % sorted(got))
+            except (sx.TooManyPaths, sx.Unknown) as e_:
+                r.bad(b.path, "Instruction::Not/Negate", relfile(b.file), b.line, "cannot evaluate codegen::instruction: %s" % e_)
     # lir constructors: left: <- left param, right: <- right param
     for suffix, contains in (("::binop", "lir::lower"), ("::call_eq_of", "lir::lower")):
         b = find_body(F, suffix, r, contains=contains)
@@ -672,23 +710,42 @@ def rule_t6(F):
         r.inst("%s switch" % fn, {"fn": fn, "branch_values": found[0] if found else None, "selects_the_%s" % what.replace(" ", "_"): found[1] if found else None})
         if not ok:
             r.bad(L + fn, "switch constant", relfile(b.file), b.line, "%s must branch to the %s when the condition is %d (true); found values %s, selects that block: %s" % (fn, what, val, found[0] if found else None, found[1] if found else None))
+    # && / ||: the method that lowers the operator is evaluated (vf/sx, helpers followed): on every path the left operand is lowered
+    # first, then a Switch on its value is emitted whose only branch constant is 1 for && (0 for ||), and the right operand is lowered
+    # after that switch
+    from .. import sx
     for fn, want in (("binop_and", 1), ("binop_or", 0)):
         b = F.body(L + fn)
         if b is None:
             r.missing(L + fn)
             continue
-        got = None
-        ld = hir.LocalDefs(b.hir)
         epos = [i for i, p_ in enumerate(b.hir["params"]) if "Meta<ast::Expr>" in (p_.get("ty") or "")]
-        for c in hir.nodes(b.hir["value"], "mcall"):
-            if c["m"] == "shortcircuit_binop":
-                got = int_lits(c["args"][3])
-                ln = [sorted(hir.param_roots(b.hir, ld, a) - {0}) for a in c["args"][:2]]
-                if len(epos) < 2 or ln != [[epos[0]], [epos[1]]]:
-                    r.bad(L + fn, "operands", relfile(b.file), c["line"], "%s passes parameters %s as (left, right), expected %s" % (fn, ln, epos[:2]))
-        r.inst("%s evaluates the right operand when the left is" % fn, {"value": got})
-        if got != [want]:
-            r.bad(L + fn, "short-circuit constant", relfile(b.file), b.line, "%s must evaluate its right operand exactly when the left one is %d; found %s" % ("&&" if want else "||", want, got))
+        if len(epos) < 2:
+            r.missing("two expression parameters of " + L + fn)
+            continue
+        names_ = [b.hir["params"][i].get("name") for i in epos[:2]]
+        got = None
+        try:
+            ps = sx.Exec(F).paths(b.hir, {})
+        except (sx.TooManyPaths, sx.Unknown) as e_:
+            r.bad(L + fn, "short-circuit constant", relfile(b.file), b.line, "cannot evaluate %s: %s" % (fn, e_))
+            continue
+        consts, order_bad = set(), False
+        for _, evs in ps:
+            sw = [(i, c) for i, e in enumerate(evs) for a in (e[3] if e[0] == "mcall" else e[2]) for c in sx.find_ctors(a, "Switch")]
+            vis = [(i, e) for i, e in enumerate(evs) if e[0] == "mcall" and e[1] == "expr" and len(e[3]) == 1 and isinstance(e[3][0], sx.Sym)]
+            li = [i for i, e in vis if str(e[3][0]) == names_[0]]
+            ri = [i for i, e in vis if str(e[3][0]) == names_[1]]
+            for i, c in sw:
+                consts.add(tuple(sx.ints_in(sx.field_of(c, "branches"))))
+            if not sw or not li or not ri or not (li[0] < sw[0][0] < ri[0]):
+                order_bad = True
+        got = sorted(consts)
+        r.inst("%s evaluates the right operand when the left is" % fn, {"value": got, "paths": len(ps)})
+        if order_bad:
+            r.bad(L + fn, "operands", relfile(b.file), b.line, "%s does not lower its first operand, then switch on it, then lower its second operand (on some path)" % fn)
+        if got != [(want,)]:
+            r.bad(L + fn, "short-circuit constant", relfile(b.file), b.line, "%s must evaluate its right operand exactly when the left one is %d; found branch constants %s" % ("&&" if want else "||", want, got))
     # primitive name table of the type checker: name <-> Primitive
     ps = [p for p in F.paths() if p.endswith("typechecker::types::default_types")]
     if not ps:
